@@ -30,8 +30,12 @@
   * the driver's two-phase program = the recursion the proofs are about: `gthRaw_eq_gthRec`.
   * "exactly one row per recurrent class": `reachMat_correct`, `recClasses_exact`,
       `stationaryDists_one_row_per_class`, `closedB_holds` (round 2).
-  Not proved here (tested by the correspondence / spec run): floating-point accuracy, NumPy copy
-  semantics, SciPy's component labelling (the model computes the classes itself).
+  * "leaves its argument untouched unless overwrite is requested": `gthCall_spec`,
+      `gthCalls_untouched`, `overwrite_false_untouched`, `argAfter_first_row`, `gthCalls_every_history`
+      (the NumPy rule "no copy iff C-contiguous float64 ndarray" is the model's `worksInPlace`, tied to
+      the code by the `gthow` correspondence).
+  Not proved here (tested by the correspondence / spec run): SciPy's component labelling (the model
+  computes the classes itself), results aliasing module state (harness histories).
 -/
 import QEModel.C02
 import QEProofs.Lemmas.C02Gth
@@ -44,6 +48,7 @@ import QEProofs.Lemmas.C02Acc
 import QEProofs.Lemmas.C02Order
 import QEProofs.Lemmas.C02OrderInst
 import QEProofs.Lemmas.C02StatAcc
+import QEProofs.Lemmas.C02Copy
 namespace QE.C02
 open Finset
 
@@ -505,6 +510,64 @@ theorem validStochastic_iff (n : ℕ) (P : M ℚ) :
         ∧ |sumUpTo (fun j => P.get i j) n - 1| ≤ 1 / 100000000 + 1 / 100000 :=
   validStochastic_iff' n P
 
+/-! ## Copy semantics of `gth_solve` (growth round 2): `worksInPlace`, `argAfter`, `gthCalls`
+
+  "…independently of its overwrite/use_jit options, and leaves its argument untouched unless
+  overwrite is requested."  The model now carries the state of the caller's array (op `gthow`,
+  compared bit for bit with the array after the real call, over argument forms × options × histories). -/
+
+/-- the routine works on the caller's memory exactly when `overwrite=True` and the argument is a
+    C-contiguous float64 ndarray -/
+theorem worksInPlace_iff (ow : Bool) (f : ArgForm) :
+    worksInPlace ow f = true ↔ (ow = true ∧ f.ndarray = true ∧ f.float64 = true ∧ f.cContig = true) :=
+  worksInPlace_iff' ow f
+
+/-- **Characterisation of the argument after one call** (any scalar type): the reduced matrix if the
+    routine worked in place, the argument itself otherwise; the returned vector is `gthSolve n A`
+    whatever the options and the form of the argument. -/
+theorem gthCall_spec {α : Type} [Zero α] [One α] [Add α] [Mul α] [Div α] [LE α] [DecidableLE α]
+    (n : ℕ) (A : M α) (ow : Bool) (f : ArgForm) :
+    (gthCall n A ow f).1 = gthSolve n A
+    ∧ (worksInPlace ow f = true → (gthCall n A ow f).2 = (reduce n (n - 1) 0 A).1)
+    ∧ (worksInPlace ow f = false → (gthCall n A ow f).2 = A) :=
+  ⟨rfl, fun h => argAfter_of_inplace n A ow f h, fun h => argAfter_of_not n A ow f h⟩
+
+/-- **`overwrite=False` leaves the argument untouched — along every history.** After any number `r`
+    of calls with `overwrite=False` (any argument form, any scalar type) the array is what it was,
+    and every call returned the solution for it. More generally this holds whenever the routine does
+    not work in place (`overwrite=True` on a list, another dtype, a non-contiguous view …). -/
+theorem gthCalls_untouched {α : Type} [Zero α] [One α] [Add α] [Mul α] [Div α] [LE α] [DecidableLE α]
+    (n : ℕ) (ow : Bool) (f : ArgForm) (h : worksInPlace ow f = false) (r : ℕ) (A : M α) :
+    (gthCalls n ow f r A).2 = A ∧ (1 ≤ r → (gthCalls n ow f r A).1 = gthSolve n A) :=
+  gthCalls_of_not n ow f h r A
+
+theorem overwrite_false_untouched {α : Type} [Zero α] [One α] [Add α] [Mul α] [Div α] [LE α] [DecidableLE α]
+    (n : ℕ) (f : ArgForm) (r : ℕ) (A : M α) :
+    (gthCalls n false f r A).2 = A ∧ (1 ≤ r → (gthCalls n false f r A).1 = gthSolve n A) :=
+  gthCalls_of_not n false f rfl r A
+
+/-- **What an in-place call keeps**: the first row of the array is never written (more generally the
+    reduction from pivot `k` on never writes into a row `i ≤ k`), for any scalar type. -/
+theorem argAfter_first_row {α : Type} [Zero α] [One α] [Add α] [Mul α] [Div α] [LE α] [DecidableLE α]
+    (n : ℕ) (A : M α) (ow : Bool) (f : ArgForm) (j : ℕ) (hn : 0 < n) (hj : j < n) :
+    (argAfter n A ow f).get 0 j = A.get 0 j := by
+  unfold argAfter
+  split
+  · exact reduce_row n (n - 1) 0 A 0 j hn hj (le_refl 0)
+  · rfl
+
+/-- **Every history of calls is sound** (exact arithmetic): starting from a matrix with non-negative
+    off-diagonals, after any number of calls — in place or not — the array still has non-negative
+    off-diagonals and every call returns a probability vector of length `n`. (An in-place call does
+    change the matrix: a later call solves the reduced one — see the example below.) -/
+theorem gthCalls_every_history {K : Type} [Field K] [LinearOrder K] [IsStrictOrderedRing K]
+    (n : ℕ) (hn : 1 ≤ n) (ow : Bool) (f : ArgForm) (r : ℕ) (A : M K) (hA : OffNonneg n A) :
+    OffNonneg n (gthCalls n ow f r A).2
+    ∧ (1 ≤ r → (gthCalls n ow f r A).1.length = n
+        ∧ (∀ i, 0 ≤ (gthCalls n ow f r A).1.getD i 0)
+        ∧ ∑ i ∈ range n, (gthCalls n ow f r A).1.getD i 0 = 1) :=
+  gthCalls_sound n hn ow f r A hA
+
 /-- the driver's Numba-order program is the instance `seqOrd` of `gthSolveO` (any scalar type) -/
 theorem gthSolve_eq_seqOrd {α : Type} [Zero α] [One α] [Add α] [Mul α] [Div α] [LE α] [DecidableLE α]
     (n : ℕ) (hn : 1 ≤ n) (A : M α) : gthSolve n A = gthSolveO seqOrd n A :=
@@ -609,6 +672,19 @@ example : errBound 2 ≤ errBound 4 := by decide
 example : validStochastic 4 exR = true := by decide +kernel
 example : validStochastic 2 (M.ofRows [[1/2, 1/2], [-1/4, 5/4]] : M ℚ) = false := by decide +kernel
 example : validStochastic 2 (M.ofRows [[1/2, 3/4], [0, 1]] : M ℚ) = false := by decide +kernel
+
+/-- copy semantics, non-vacuity: the in-place form, what one in-place call leaves in the array, a
+    form that is copied, and a history of two in-place calls (the second solves the reduced matrix
+    and returns another vector than the first) -/
+def inPlaceForm : ArgForm := ⟨true, true, true⟩
+example : worksInPlace true inPlaceForm = true ∧ worksInPlace false inPlaceForm = false
+    ∧ worksInPlace true ⟨true, false, true⟩ = false ∧ worksInPlace true ⟨false, true, true⟩ = false := by decide
+example : (argAfter 3 exP true inPlaceForm).toRows = [[1/2, 1/4, 1/4], [1, 1/4, 3/4], [1/2, 5/6, 1]] := by
+  decide +kernel
+example : (argAfter 3 exP true ⟨true, true, false⟩).toRows = exP.toRows := by decide +kernel
+example : (gthCalls 3 true inPlaceForm 1 exP).1 = [8/19, 5/19, 6/19] := by decide +kernel
+example : (gthCalls 3 true inPlaceForm 2 exP).1 ≠ [8/19, 5/19, 6/19] := by decide +kernel
+example : (gthCalls 3 false inPlaceForm 3 exP).1 = [8/19, 5/19, 6/19] := by decide +kernel
 
 /-- hypotheses of `scatter_invariant` on the class `{2,3}` of `exR` -/
 example : ([2, 3] : List ℕ).Nodup ∧ (∀ c ∈ ([2, 3] : List ℕ), c < 4)
